@@ -674,10 +674,34 @@ P_cmd_signal(s, f) ==
                       ELSE IF fr.b = 0 \/ fr.b = 2
                       THEN Call(DropKids(s, f), f, IF fr.b = 2 THEN "2c" ELSE "2n", "send_signal", i, Head(fr.l), fr.a, 0)
                       ELSE Goto(s, f, "2c")
-    [] fr.pc = "2n" -> IF KidR(s, f) = 2 THEN Ret(DropKids(s, f), f, 3)
+    [] fr.pc = "2n" -> IF KidR(s, f) \in {2, 3} THEN Ret(DropKids(s, f), f, 3)
                        ELSE Goto(SetL(DropKids(s, f), f, Tail(fr.l)), f, "2")
-    [] fr.pc = "2c" ->     \* send_signal_children(pid, signum[, recursive]) : not modelled beyond the listing
-         Goto(SetL(DropKids(s, f), f, Tail(fr.l)), f, "2")
+    [] fr.pc = "2c" ->     \* recursive: after the worker itself; children: instead of it; childpid: that child only
+         IF fr.b = 2 /\ KidR(s, f) = 2 THEN Ret(DropKids(s, f), f, 3)
+         ELSE Call(DropKids(s, f), f, "2n", "send_signal_children", i, Head(fr.l), fr.a,
+                   IF fr.b = 2 THEN 1 ELSE IF fr.b = 3 THEN 2 + s.creq.childpid ELSE 0)
+
+\* ---- Watcher.send_signal_children(pid, signum, recursive) -> Process.send_signal_children       (fr.b \in {0, 1})
+\*      Watcher.send_signal_child(pid, child, signum) -> Process.send_signal_child                 (fr.b = 2 + child)
+\*      self.processes[pid]: KeyError for a pid the watcher does not track; psutil.NoSuchProcess (listing a reaped
+\*      worker, a child that is gone, a child pid that is not a child) is not an OSError and escapes: result 3
+P_send_signal_children(s, f) ==
+  LET fr == s.fr[f] IN
+  CASE fr.pc = "0" ->
+         IF ~InPr(s.ws[fr.w], fr.p) THEN Ret(s, f, 3)
+         ELSE IF s.k[fr.p].st = "reaped"
+         THEN Emit(Ret(s, f, 3), Line("children", "", fr.p, 0, "nsp", ""))
+         ELSE LET cl == IF s.k[fr.p].st = "run" THEN DescSeq(s, <<fr.p>>, fr.b = 1) ELSE <<>>
+                  one == fr.b - 2 IN
+              IF fr.b < 2 THEN Emit(Goto(SetL(s, f, cl), f, "1"), Line("children", "", fr.p, Len(cl), "ok", ""))
+              ELSE IF one \in SeqSet(cl)
+              THEN Emit(Goto(SetL(s, f, <<one>>), f, "1"), Line("children", "", fr.p, Len(cl), "ok", ""))
+              ELSE Emit(Ret(s, f, 3), Line("children", "", fr.p, Len(cl), "ok", ""))
+    [] fr.pc = "1" ->
+         IF fr.l = <<>> THEN Ret(s, f, 1)
+         ELSE LET c == Head(fr.l) IN
+              IF s.k[c].st = "reaped" THEN Emit(Ret(s, f, 3), Line("csignal", "", c, fr.a, "nsp", ""))
+              ELSE Emit(SetL(Deliver(s, c, fr.a, FALSE), f, Tail(fr.l)), Line("csignal", "", c, fr.a, "ok", ""))
 
 \* send_response: nothing is sent for a request that came from the signal handler (cid None)
 Reply(s, cid, mid, status, errno) == IF cid = "" THEN s ELSE Emit(s, Line("reply", mid, 0, errno, status, cid))
@@ -704,6 +728,8 @@ P_req(s, f) ==
       i == IF ws = {} THEN 0 ELSE Min(ws) IN
   CASE fr.pc = "0" ->
          IF q.cmd = "add" THEN Goto(s, f, "d")
+         ELSE IF q.cmd = "signal" /\ q.childpid # -1 /\ q.pid = -1           \* Signal.validate: ArgumentError
+         THEN Reply(Goto(s, f, "z"), cid, q.mid, "error", 5)
          ELSE IF q.hasname /\ ws = {} THEN Reply(Goto(s, f, "z"), cid, q.mid, "error", 3)
          ELSE IF q.cmd = "list" /\ q.hasname THEN Goto(SetL(s, f, PidSeq(s.ws[i])), f, "rl")
          ELSE IF q.cmd = "stats"
@@ -719,7 +745,8 @@ P_req(s, f) ==
          ELSE IF q.cmd \in {"incr", "decr"} /\ s.ws[i].sing THEN Reply(Goto(s, f, "z"), cid, q.mid, "ok", 0)
          ELSE IF q.cmd = "kill" THEN Call(s, f, "k2", "cmd_kill", i, q.pid, q.signum, q.G)
          ELSE IF q.cmd = "signal" THEN Call(s, f, "g1", "cmd_signal", i, q.pid, q.signum,
-                                            IF q.children THEN 1 ELSE IF q.recursive THEN 2 ELSE 0)
+                                            IF q.childpid # -1 THEN 3 ELSE IF q.children THEN 1
+                                            ELSE IF q.recursive THEN 2 ELSE 0)
          ELSE Goto(s, f, "x")
     [] fr.pc = "rl" ->     \* list <name>: get_active_processes() reads every worker's status
          IF fr.l = <<>> THEN Goto(SetM(SetL(s, f, fr.m), f, <<>>), f, "rl2")
@@ -857,6 +884,7 @@ Dispatch(s, f, ob) ==
     [] fn = "op" -> P_op(s, f)
     [] fn = "cmd_kill" -> P_cmd_kill(s, f)
     [] fn = "cmd_signal" -> P_cmd_signal(s, f)
+    [] fn = "send_signal_children" -> P_send_signal_children(s, f)
     [] fn = "req" -> P_req(s, f)
     [] fn = "exit" -> P_exit(s, f)
     [] fn = "boot" -> P_boot(s, f)
